@@ -181,6 +181,18 @@ theorem reference_presentation_independent (r r' : T) (bs : List T) (h : hypOK r
 example : hypOK wRef6 [wBoot6] = true ∧ treeOK wRef6r = true ∧ sameTaxa wRef6 wRef6r = true ∧
     idsInRange wRef6 = true ∧ idsInRange wRef6r = true := by decide
 
+/-! ## the oracle the driver evaluates is what the theorems are about -/
+
+/-- The Spec predicates that the driver evaluates on the *implementation's*
+    output (`fbpOK`, `tbeOK`, `fbpLeTbeOK` of Spec/C10.lean, with their float
+    tolerances) hold of the model's output: an implementation that agrees with the
+    model passes the oracle, and the oracle asks for nothing the property does not state. -/
+theorem oracle_accepts_model (r : T) (bs : List T) (h : hypOK r bs = true) (hid : idsInRange r = true) :
+    ∃ f t, fbp r bs = .ok f ∧ tbe r bs = .ok t ∧
+      fbpOK r bs f = true ∧ tbeOK r bs t = true ∧ fbpLeTbeOK r f t = true :=
+  ⟨fbpExpected r bs, tbeExpected r bs, fbp_eq_expected r bs h, tbe_eq_expected r bs h hid,
+    fbpOK_expected r bs h, tbeOK_expected r bs h, fbpLeTbeOK_expected r bs h⟩
+
 /-! ## rejection -/
 
 /-- `different_taxa_err`: a collection containing a tree on other taxa is
@@ -225,11 +237,41 @@ theorem fbp_pinned14_fails :
     sameTaxa wRef wBad = false ∧ (fbpPinned14 wRef [wBad]).isErr = false ∧ (fbp wRef [wBad]).isErr = true := by
   decide
 
+/-- … and for all inputs: the old FBP never reported an error once the reference
+    itself was indexable. -/
+theorem fbp_pinned14_never_rejects (r : T) (bs : List T) (hr : reinitOk r = true) :
+    (fbpPinned14 r bs).isErr = false := by
+  unfold fbpPinned14
+  have := fbpLoopPinned14_noerr r bs (r.splits.map fun _ => 0) 0
+  generalize fbpLoopPinned14 r bs (r.splits.map fun _ => 0) 0 = res at this
+  obtain ⟨c, n, e⟩ := res
+  simp only [] at this
+  subst this
+  simp only [hr, Bool.not_true, Bool.false_eq_true, if_false]
+  split <;> rfl
+
 /-- F15 (before 46b6f1e): TBE lost the error unless the offending tree was the last. -/
 theorem tbe_pinned15_fails :
     sameTaxa wRef wBad = false ∧ (tbePinned15 wRef [wBad, wBoot]).isErr = false ∧
     (tbe wRef [wBad, wBoot]).isErr = true := by
   decide
+
+/-- … and for all inputs: the old TBE reported the mismatch only of the last tree. -/
+theorem tbe_pinned15_only_last (r : T) (bs : List T) (hr : reinitOk r = true) :
+    (tbePinned15 r bs).isErr =
+      match bs.getLast? with
+      | none => false
+      | some b => !compareTips r b := by
+  unfold tbePinned15
+  have := tbeLoopPinned15_err r bs (r.splits.map fun _ => NIL) 0 false
+  generalize tbeLoopPinned15 r bs (r.splits.map fun _ => NIL) 0 false = res at this
+  obtain ⟨c, n, e⟩ := res
+  simp only [] at this
+  subst this
+  simp only [hr, Bool.not_true, Bool.false_eq_true, if_false]
+  cases hl : bs.getLast? with
+  | none => rfl
+  | some b => cases hc : compareTips r b <;> simp [hc, Out.isErr]
 
 /-- F35 (before 227a97a): the root branch that is the twin of a tip branch got
     support 0 from an unrooted bootstrap tree; now it gets none, like the tip. -/
